@@ -445,6 +445,19 @@ func (c *lostErrClient) PreAssign(e *Engine, st *State, lhs, rhs []ast.Expr, stm
 			continue
 		}
 		if out.Ext("pend:"+e.objKey(o)) == "1" && !e.IsNil(out, id) && e.Reporting() {
+			// replaced by something that is itself known to be an error: the outcome stays a failure
+			// (only the wording of what is reported changes)
+			if len(lhs) == len(rhs) {
+				var mine ast.Expr
+				for i := range lhs {
+					if lhs[i] == l {
+						mine = rhs[i]
+					}
+				}
+				if mine != nil && errorForSure(e, out, mine) {
+					continue
+				}
+			}
 			key := fmt.Sprintf("%s overwrites %s by %s", c.fn, id.Name, exprStr(rhs[0]))
 			e.Site("C13/lost-error", key, l, false, fmt.Sprintf("the error variable %s is assigned again while the error of an earlier call may still be in it, unreturned and unmerged: that failure is silently dropped and the construct is accepted", id.Name))
 		}
@@ -455,12 +468,60 @@ func (c *lostErrClient) PreAssign(e *Engine, st *State, lhs, rhs []ast.Expr, stm
 	return nil
 }
 
+// errorForSure: x is known to be a non-nil error - a fresh error, a variable known non-nil, or a merge or wrapper
+// (module functions from errors to an error) of something that is.
+func errorForSure(e *Engine, st *State, x ast.Expr) bool {
+	if knownNonNilError(e, st, x) {
+		return true
+	}
+	call, ok := ast.Unparen(x).(*ast.CallExpr)
+	if !ok {
+		return false
+	}
+	f := Callee(e.Info, call)
+	if f == nil || !isErrorCombinator(e.P, f) {
+		return false
+	}
+	for _, a := range call.Args {
+		if errorForSure(e, st, a) {
+			return true
+		}
+	}
+	return false
+}
+
+// isErrorCombinator: a function of the module whose parameters are all errors (or a list of errors) and whose
+// single result is an error: joinErrors, makeErrorOpaque and the like. They are taken to return nil only when every
+// argument is nil (an assumption that can only silence this rule, never make it fire).
+func isErrorCombinator(p *Program, f *types.Func) bool {
+	if d, _ := p.DeclOf(f); d == nil {
+		switch f.FullName() {
+		case "errors.Join":
+			return true
+		}
+		return false
+	}
+	sig := f.Type().(*types.Signature)
+	if sig.Results().Len() != 1 || !isErrorType(sig.Results().At(0).Type()) || sig.Params().Len() == 0 || sig.Recv() != nil {
+		return false
+	}
+	for i := 0; i < sig.Params().Len(); i++ {
+		t := sig.Params().At(i).Type()
+		if sl, ok := t.(*types.Slice); ok {
+			t = sl.Elem()
+		}
+		if !isErrorType(t) {
+			return false
+		}
+	}
+	return true
+}
+
 func (c *lostErrClient) PostAssign(e *Engine, st *State, lhs, rhs []ast.Expr, _ ast.Stmt) *State {
 	if len(rhs) != 1 {
 		return nil
 	}
-	call, ok := ast.Unparen(rhs[0]).(*ast.CallExpr)
-	if !ok {
+	if _, ok := ast.Unparen(rhs[0]).(*ast.CallExpr); !ok {
 		return nil
 	}
 	out := st
@@ -470,10 +531,7 @@ func (c *lostErrClient) PostAssign(e *Engine, st *State, lhs, rhs []ast.Expr, _ 
 			continue
 		}
 		if o := objOf(e.Info, id); o != nil && isErrorType(o.Type()) {
-			// a fresh result of a call: pending until looked at
-			if f := Callee(e.Info, call); f != nil && fnName(f) == "makeErrorOpaque" || f != nil && fnName(f) == "joinErrors" {
-				continue
-			}
+			// a fresh result of a call (also of a wrapper or merge of earlier errors): pending until looked at
 			out = out.WithExt("pend:"+e.objKey(o), "1")
 		}
 	}
@@ -672,6 +730,11 @@ type clauseSpanClient struct {
 	BaseClient
 	InlinePredicates
 	fn string
+}
+
+// Inline: helpers that are handed the term to fill in are read where they are called (as in C07/sortdefaults).
+func (c *clauseSpanClient) Inline(e *Engine, call *ast.CallExpr, callee *types.Func, decl *ast.FuncDecl) bool {
+	return (&sortTermClient{}).Inline(e, call, callee, decl)
 }
 
 func (c *clauseSpanClient) textOf(e *Engine, st *State, tok ast.Expr) (string, bool) {
@@ -1012,6 +1075,56 @@ func ruleC06Quoted(p *Program, r *Run) {
 			}
 		}
 		e.FlushSites(r)
+	}
+	// identifier nodes built outside the parser (the compiler making a column reference out of a column name):
+	// a copy of an identifier keeps its Quoted flag
+	for _, opkg := range p.All {
+		if opkg == pkg {
+			continue
+		}
+		oinfo := opkg.TypesInfo
+		for _, fd := range AllFuncs(opkg) {
+			n := 0
+			ast.Inspect(fd.Body, func(x ast.Node) bool {
+				cl, ok := x.(*ast.CompositeLit)
+				if !ok || strings.TrimPrefix(TypeStr(oinfo.TypeOf(cl)), "*") != "parser.Ident" {
+					return true
+				}
+				n++
+				fn := FuncName(opkg, fd)
+				r.Saw(fn)
+				key := fmt.Sprintf("%s Ident literal #%d", fn, n)
+				nv := litField(oinfo, cl, "Name")
+				if nv == nil || constOf(oinfo, nv) != nil {
+					r.Pass("C06/quoted-flag", key, p.Pos(cl.Pos()), "a synthesised name (constant or empty)")
+					return true
+				}
+				if args, isParam := p.paramCallArgs(objOf(oinfo, nv)); isParam && p.neverReassigned(objOf(oinfo, nv)) {
+					allConst := true
+					for _, a := range args {
+						if constOf(p.Info, a) == nil {
+							allConst = false
+						}
+					}
+					if allConst {
+						r.Pass("C06/quoted-flag", key, p.Pos(cl.Pos()), "a synthesised name: the parameter is a constant at every call")
+						return true
+					}
+				}
+				src, isSel := ast.Unparen(nv).(*ast.SelectorExpr)
+				if !isSel || src.Sel.Name != "Name" || strings.TrimPrefix(TypeStr(oinfo.TypeOf(src.X)), "*") != "parser.Ident" {
+					r.Fail("C06/quoted-flag", key, p.Pos(cl.Pos()), "an identifier node is built outside the parser from "+exprStr(nv)+": whether the name was quoted cannot be told, so whether it may be substituted by a let binding cannot be decided")
+					return true
+				}
+				q := litField(oinfo, cl, "Quoted")
+				okQ := false
+				if qs, isQ := ast.Unparen(q).(*ast.SelectorExpr); q != nil && isQ && qs.Sel.Name == "Quoted" && exprStr(qs.X) == exprStr(src.X) {
+					okQ = true
+				}
+				r.Check(okQ, "C06/quoted-flag", key, p.Pos(cl.Pos()), "a copy of an identifier that copies its Quoted flag", "an identifier node is copied from "+exprStr(src.X)+" without its Quoted flag: a name that was written in backticks becomes a plain name and is replaced by a let binding or parameter of the same name")
+				return true
+			})
+		}
 	}
 	r.Floor("C06/quoted-flag", 3)
 }
@@ -1746,6 +1859,15 @@ func ruleC07ListOrder(p *Program, r *Run) {
 			if isNilIdent(info, v) {
 				return true
 			}
+			// a parameter of a helper (a constructor of the node): what is passed for it at every call
+			if args, isParam := p.paramCallArgs(objOf(info, v)); isParam && p.neverReassigned(objOf(info, v)) {
+				for _, a := range args {
+					if !inOrder(a, depth+1) {
+						return false
+					}
+				}
+				return true
+			}
 			return p.allDefsAre(v, func(d ast.Expr) bool {
 				if id, ok := d.(*ast.Ident); ok && objOf(info, id) == objOf(info, v) {
 					return false
@@ -1792,6 +1914,41 @@ func ruleC07ListOrder(p *Program, r *Run) {
 			// a production: a method of the parser that returns the list it parsed
 			if sig := f.Type().(*types.Signature); sig.Recv() != nil && strings.HasSuffix(TypeStr(sig.Recv().Type()), "parser.parser") {
 				return true
+			}
+			// an "append" helper of the module: every return gives back its list parameter, as it is or with
+			// elements appended (appendOperator(list, op): `if op != nil { return append(list, op) }; return list`)
+			fo := f
+			if fo.Origin() != nil {
+				fo = fo.Origin()
+			}
+			if decl, dpkg := p.DeclOf(fo); decl != nil && decl.Body != nil && dpkg == pkg && decl.Recv == nil && len(v.Args) >= 1 && len(decl.Type.Params.List) >= 1 && len(decl.Type.Params.List[0].Names) >= 1 {
+				lp := info.Defs[decl.Type.Params.List[0].Names[0]]
+				if lp != nil && isNodeList(lp.Type()) && p.neverReassignedExceptAppend(lp) {
+					good, rets := true, 0
+					ast.Inspect(decl.Body, func(m ast.Node) bool {
+						ret, isRet := m.(*ast.ReturnStmt)
+						if !isRet {
+							return true
+						}
+						rets++
+						if len(ret.Results) != 1 {
+							good = false
+							return true
+						}
+						res := ast.Unparen(ret.Results[0])
+						if objOf(info, res) == lp {
+							return true
+						}
+						if call, isCall := res.(*ast.CallExpr); isCall && IsBuiltinCall(info, call, "append") && len(call.Args) >= 1 && objOf(info, call.Args[0]) == lp && !call.Ellipsis.IsValid() {
+							return true
+						}
+						good = false
+						return true
+					})
+					if good && rets > 0 {
+						return inOrder(v.Args[0], depth+1)
+					}
+				}
 			}
 		}
 		return false
@@ -3548,6 +3705,15 @@ func (c *unionCoreClient) PreAssign(e *Engine, st *State, lhs, rhs []ast.Expr, s
 						// lo := min(result.Start, next.Start): a local computed from the accumulated span
 						if d := e.P.DefExpr(id); d != nil && d != ast.Expr(id) {
 							mentions(d, depth+1)
+						} else {
+							// several definitions (computed, then possibly swapped or clamped): any of them
+							e.P.allDefsAre(id, func(dx ast.Expr) bool {
+								if di, isID := ast.Unparen(dx).(*ast.Ident); isID && objOf(e.Info, di) == objOf(e.Info, id) {
+									return false // the variable itself: look at its definitions
+								}
+								mentions(dx, depth+1)
+								return true
+							})
 						}
 					}
 				}
@@ -3683,4 +3849,37 @@ func ruleC07NonNilStatements(p *Program, r *Run) {
 	if c.seen == 0 {
 		r.Fail("C07/statements", fn+" appends statements", p.Pos(fd.Pos()), "no statement is ever appended to Parse's result on a feasible path")
 	}
+}
+
+// neverReassignedExceptAppend: the list variable is only ever assigned `append(itself, ...)`.
+func (p *Program) neverReassignedExceptAppend(o types.Object) bool {
+	if p.neverReassigned(o) {
+		return true
+	}
+	fd := p.FuncAt(o.Pos())
+	if fd == nil {
+		return false
+	}
+	ok := true
+	ast.Inspect(fd.Body, func(n ast.Node) bool {
+		as, isAs := n.(*ast.AssignStmt)
+		if !isAs {
+			return true
+		}
+		for i, l := range as.Lhs {
+			if objOf(p.Info, l) != o {
+				continue
+			}
+			if i >= len(as.Rhs) {
+				ok = false
+				continue
+			}
+			call, isCall := ast.Unparen(as.Rhs[i]).(*ast.CallExpr)
+			if !isCall || !IsBuiltinCall(p.Info, call, "append") || len(call.Args) == 0 || objOf(p.Info, call.Args[0]) != o || call.Ellipsis.IsValid() {
+				ok = false
+			}
+		}
+		return true
+	})
+	return ok
 }
